@@ -10,7 +10,7 @@
 (*    src  |-> 0..4  source variant: 0 family text, 1 small edit (stays    *)
 (*             "strictly similar"), 2 moderate edit (only approximately    *)
 (*             similar), 3 rewritten (dissimilar), 4 emptied,              *)
-(*    outs |-> 0..6  output-list variant (code cells),                     *)
+(*    outs |-> 0..7  output-list variant (code cells),                     *)
 (*    md   |-> 0..4  cell metadata variant (2..4 share a tags list that    *)
 (*             grows differently),                                         *)
 (*    ec   |-> 0..2  execution count variant,                              *)
@@ -128,7 +128,7 @@ Edits(nb) ==
   { <<[a |-> "ReId", pos |-> i, v |-> c], SetField(i, "cid", c)>> : i \in 1..n, c \in fresh }
   \cup
   { <<[a |-> "EditOutputs", pos |-> i, v |-> v], SetField(i, "outs", v)>> :
-      i \in {q \in 1..n : nb.cells[q].kind = "code"}, v \in 0..6 }
+      i \in {q \in 1..n : nb.cells[q].kind = "code"}, v \in 0..7 }
   \cup
   { <<[a |-> "EditCellMeta", pos |-> i, v |-> v], SetField(i, "md", v)>> : i \in 1..n, v \in 0..4 }
   \cup
@@ -179,7 +179,7 @@ IsNb(nb) == /\ nb.minor \in 0..5
             /\ nb.nbmd \in 0..2
             /\ \A i \in 1..Len(nb.cells) :
                   /\ nb.cells[i].kind \in {"code", "markdown", "raw"}
-                  /\ nb.cells[i].src \in 0..4 /\ nb.cells[i].outs \in 0..6
+                  /\ nb.cells[i].src \in 0..4 /\ nb.cells[i].outs \in 0..7
                   /\ nb.cells[i].md \in 0..4 /\ nb.cells[i].ec \in 0..2 /\ nb.cells[i].att \in 0..3
 TypeOK == IsNb(base) /\ IsNb(local) /\ IsNb(remote)
 
